@@ -338,6 +338,8 @@ class Ref:
             except _Continue:
                 pass
             cur = env[var]
+            if cur is None:
+                break                  # a control variable set to null has left the range
             nxt = cur + step           # exact: the control variable never wraps around
             if (step > 0 and nxt > hi) or (step < 0 and nxt < lo):
                 break
